@@ -1,4 +1,5 @@
 import CattrsModel.Generics.Lemmas
+import CattrsModel.Generics.Defaults
 /-!
 # C17 — generic classes behave like their monomorphised copies
 
@@ -69,6 +70,11 @@ def passChain : List Level :=
 def mixinChain : List Level :=
   [{ lv "Child" ["U"] [("c", .app "Union" [U, tNone])] [tInt, U] with plainBefore := 1, plainAfter := 1 },
    lv "Parent" ["T", "U"] [("a", T), ("b", .app "list" [U])]]
+/-- PEP 696 × inheritance: `class Child(Base[str, U], Generic[U]): z: Optional[U]` over
+    `class Base(Generic[T, U]): x: T; y: U; ys: list[U]`, `U` defaulting to `int` -/
+def dfltPassChain : List Level :=
+  [lv "Child" ["U"] [("z", .app "Union" [U, tNone])] [tStr, U] true [("U", tInt)],
+   lv "Base" ["T", "U"] [("x", T), ("y", U), ("ys", .app "list" [U])] [] true [("U", tInt)]]
 end C17Ex
 open C17Ex
 
@@ -148,6 +154,50 @@ theorem C17_mapping (lv : Level) (rest : List Level) :
 example : lookup (generateMapping goodChain (.alias [tStr]) []) "T" = some tStr := by decide
 example : effective (generateMapping dfltChain .bare []) [] = [("U", tStr), ("T", tInt)] := by decide
 example : targetArgs dfltChain .bare = some [tInt, tStr] := by decide
+
+/-! ## PEP 696 defaults never override an argument -/
+
+/-- For a parametrised target `G[args…]` the PEP 696 defaults of the type variables are inert: whatever defaults the
+    classes of the chain declare (`withDefaults d`: any other assignment of defaults, class by class), every generator
+    binds the same field types — an explicit argument wins over the default for own AND inherited fields, also where the
+    parameter is handed on to a parametrised base (`class Child(Base[str, U], Generic[U])`: `generate_mapping(Base[str, U],
+    mapping)` skips the still-open `U` and keeps the binding of `Child[float]`).  Defaults matter only for the bare class
+    (`C17_mapping`, third part).  With `C17_mono_partial` (whose scope does not mention defaults either): `Child[float]`
+    IS its monomorphised copy. -/
+theorem C17_defaults_inert_when_bound (chain : List Level) (d : Level → Mapping) (args : List Ann) :
+    structGen (withDefaults d chain) (.alias args) = structGen chain (.alias args) ∧
+    unstructGen (withDefaults d chain) (.alias args) = unstructGen chain (.alias args) ∧
+    structGenTD (withDefaults d chain) (.alias args) = structGenTD chain (.alias args) ∧
+    structGenTDFast (withDefaults d chain) (.alias args) = structGenTDFast chain (.alias args) := by
+  refine ⟨?_, ?_, ?_, ?_⟩
+  · simp only [structGen, structMapping_withDefaults, paramsBound_withDefaults, allFields_withDefaults, selfIs_withDefaults]
+  · simp only [unstructGen, unstructMapping_withDefaults, allFields_withDefaults, selfIs_withDefaults]
+  · simp only [structGenTD, structMapping_withDefaults, paramsBound_withDefaults, allFields_withDefaults, selfIs_withDefaults]
+  · simp only [structGenTDFast, structMapping_withDefaults, paramsBound_withDefaults, allFields_withDefaults, selfIs_withDefaults]
+
+/-- non-vacuity: `Child[float]` (an argument different from the default) is in the scope of `C17_mono_partial`, gets the
+    copy's field types — `float` in the inherited `y`, `ys` and in its own `z` —, the same with the defaults removed; the
+    bare `Child` and `Child[int]` use the default -/
+example : scopeB dfltPassChain [.lf "float"] = true ∧
+    structGen dfltPassChain (.alias [.lf "float"]) = some
+      [("x", tStr), ("y", .lf "float"), ("ys", .app "list" [.lf "float"]), ("z", .app "Union" [.lf "float", tNone])] ∧
+    structGen (withDefaults (fun _ => []) dfltPassChain) (.alias [.lf "float"]) = structGen dfltPassChain (.alias [.lf "float"]) ∧
+    targetArgs dfltPassChain .bare = some [tInt] ∧ scopeB dfltPassChain [tInt] = true ∧
+    structGen dfltPassChain .bare = structGen dfltPassChain (.alias [tInt]) := by
+  decide
+
+/-- **Regression witness** (replayed on the implementation by the `systematic-defaults-inherit` worlds of the check):
+    had `generate_mapping` bound a still-open argument to its variable's default (`bindDefaultTv` — "the parameter left
+    open still has a usable default"), the second call `generate_mapping(Base[str, U], {U: float})` would overwrite the
+    binding of `Child[float]`: inherited and own `U`-typed fields would be bound as `int`, not as the copy's `float`. -/
+theorem C17_default_override_witness :
+    lookup (structMapping dfltPassChain (.alias [.lf "float"])) "U" = some (.lf "float") ∧
+    lookup (structMappingOverride dfltPassChain [.lf "float"]) "U" = some tInt ∧
+    rewriteFields (fieldRewrite (structMappingOverride dfltPassChain [.lf "float"]) (selfIs dfltPassChain)) (allFields dfltPassChain)
+      = [("x", tStr), ("y", tInt), ("ys", .app "list" [tInt]), ("z", .app "Union" [tInt, tNone])] ∧
+    rewriteFields (fieldRewrite (structMappingOverride dfltPassChain [.lf "float"]) (selfIs dfltPassChain)) (allFields dfltPassChain)
+      ≠ monoFields dfltPassChain [.lf "float"] (some (selfSpec dfltPassChain [.lf "float"])) := by
+  decide
 
 /-! ## generic classes behave like their monomorphised copies -/
 
@@ -321,6 +371,29 @@ theorem C17_names_injective (cls : List Char) :
 
 example : Plain "int".toList ∧ Plain "str".toList ∧ mangle "G" ["int", "str"] = "structure_G_int_str" := by
   refine ⟨?_, ?_, by decide⟩ <;> intro c hc <;> simp at hc <;> rcases hc with rfl | rfl | rfl <;> decide
+
+/-- The generated function's name is an identifier whenever the class name is one and every argument name consists of
+    identifier characters and `[ ] . space , < > |` — the characters of `str(arg)` for a PEP 604 union of (nested,
+    multi-argument) builtin generics and of dotted class paths, the only arguments named after their `str()` (everything
+    else has a `__name__`): `G[dict[str, int] | None]`, `D[str, tuple[int, float] | None]` get compilable hooks. -/
+theorem C17_names_identifier (cls : List Char) (ns : List (List Char))
+    (hc : ∀ c, c ∈ cls → identChar c = true) (hn : ∀ n, n ∈ ns → ∀ c, c ∈ n → reprChar c = true) :
+    (∀ c, c ∈ mangleL cls ns → identChar c = true) ∧ ∃ r, mangleL cls ns = "structure_".toList ++ r := by
+  refine ⟨mangleL_ident cls ns hc hn, ?_⟩
+  rw [mangleL_eq]
+  exact ⟨cls ++ sepJoin ns, by simp⟩
+
+example : (∀ c, c ∈ "dict[str, int] | None".toList → reprChar c = true) ∧
+    mangle "G" ["dict[str, int] | None"] = "structure_G_dict_str__int__u_None" ∧
+    mangle "D" ["str", "tuple[int, float] | None"] = "structure_D_str_tuple_int__float__u_None" := by
+  decide
+
+/-- … and only then: a quote is not rewritten.  (cattrs never meets one: `Literal['a']`, `Annotated[int, 'm']` have a
+    `__name__` — `Literal`, `int` — and are named after it; the check compares the real names, `corr:C17:MANGLE`.)
+    Dropping a character from the sanitiser's class (the comma, say) breaks `C17_names_identifier` the same way. -/
+theorem C17_names_quote_witness :
+    '\'' ∈ (mangle "G" ["Literal['a']"]).toList ∧ identChar '\'' = false ∧ reprChar ',' = true ∧ identChar ',' = false := by
+  decide
 
 /-- without those restrictions the names do collide (harmless in cattrs: every generated function lives in its own
     namespace and the cache is keyed by the type, `C17_no_interference`) -/
